@@ -115,6 +115,7 @@ class Ctx:
         self.extra = {}
         self.coverage_actions = {}
         kf = os.path.join(ROOT, "known_findings.json")
+        self.excused_compound = set()
         self.known = {}
         if os.path.exists(kf):
             for f in json.load(open(kf)).get("findings", []):
@@ -355,6 +356,19 @@ class Ctx:
         if key in self.known:
             self.known_hit[key] = self.known[key]
             return
+        if (key.startswith("abort:alloc:") or key.startswith("memory:out-of-proportion:")) and " & " in key:
+            # a script with several faults: explained iff one of its faulted sites alone is a listed
+            # finding of the same class and format (every site is also enumerated as a single fault, so
+            # a new site still shows up on its own)
+            head, sites = key.rsplit(":", 1)[0], None
+            m = re.match(r"^((?:abort:alloc|memory:out-of-proportion):[a-z]+):(.*)$", key)
+            if m:
+                for site in m.group(2).split(" & "):
+                    k1 = m.group(1) + ":" + site
+                    if k1 in self.known:
+                        self.known_hit[k1] = self.known[k1]
+                        self.excused_compound.add(key)
+                        return
         if key.startswith("dev:") and "+" in key:
             # a behaviour exhibiting several named deviations whose observed output equals the
             # as-is prediction: excused iff every one of the deviations is a listed finding
